@@ -9,6 +9,9 @@ CHECKS = {
  "C01": ("model_checking", "explicit-state BFS over the real registration API (E1) with a reference predicate evaluated on every transition",
          "Every history of operator actions and every well-signed fetch shape from the pool (up to 576 per state) is executed on a clone of the real server store; credentials may be issued only if (a), (b) or (c) of the property holds in the pre-state, unauthorized requests must leave the set of node records unchanged, and issued credentials must open only with the requesting encryption key and echo the request's nonce. Quick: reduced menus to depth 3; thorough: full menus to fixpoint.",
          "Signature forgery is outside the model ('forged' = assembled from other pool members). The canonical state key drops fields no transition or oracle reads (server encryption key, bundles, state).", "6/C01", "E1"),
+ "C05": ("exploration", "bounded-exhaustive configuration/input product (E4) against a reference predicate on the real GenerateServerCertificates",
+         "The complete product of lookup path, ordered record list under the node id (valid record first / middle / last / absent), claimed key, nonce signer, client-state signer and skip flag (4800 calls) is executed; success must coincide with 'verification waived by the local caller or some record in the lookup result verifies nonce and client state', failures must return no response, successes must echo the submitted state.",
+         "A forged signature is one by another pool key or a missing one.", "6/C05", "E4"),
  "C06": ("model_checking", "explicit-state BFS over the real token API in virtual time (E1)",
          "All histories (quick depth 4, thorough depth 6) of create / use / authorize / remove / age / tamper over two tokens and two keys run on the real code under a frozen virtual clock with exact boundary ages (lifetime-1ns, lifetime, lifetime+1ns), for storage wrapper off/on x three maximum lifetimes; a successful use must be of an issued, unconsumed token within the lifetime counted from the sealed creation instant, by a key without a record; failed uses must create no record; stored bytes must not contain the HMAC key or the token.",
          "The tie age == lifetime is left unconstrained. One known finding (downgrade edit) is listed in known_findings.json.", "6/C06", "E1"),
